@@ -64,7 +64,30 @@ WhyFoldStr(e) ==
      ELSE (IF e.dmax >= total + 5 THEN "spurious_failure"
            ELSE IF e.hn # 1 THEN "report"
            ELSE IF e.dmax >= 1 /\ e.post[1] # 0 THEN "dest_not_cleared" ELSE "")
-Why(e) == IF e.op = "n" THEN WhyNorm(e) ELSE IF e.op = "w" THEN WhyFoldStr(e) ELSE WhyFold(e)
+\* The stages of wcsnorm_s are entry points of their own (ops "d", "r", "c"): wcsnorm_decompose_s gives the full canonical
+\* decomposition in the order of the source (UAX #15 D68 without the Canonical Ordering Algorithm), wcsnorm_reorder_s applies the
+\* Canonical Ordering Algorithm to len elements, wcsnorm_compose_s the Canonical Composition Algorithm to a canonically
+\* ordered, fully decomposed string of *lenp elements (other input is not judged).  Each must store its result and the
+\* terminator inside dmax or fail (one report, dest emptied): "ESNOSPC when dmax too small for the result buffer".
+StageRef(e) == IF e.op = "d" THEN DecompStr(e.s) ELSE IF e.op = "r" THEN Reorder(<<>>, e.s) ELSE ComposeRec(<<>>, 0, 0, e.s)
+WhyStage(e) ==
+  LET ref == StageRef(e)
+      room == IF e.op = "d" THEN Len(ref) + 5 ELSE Len(ref) + 1     \* decompose asks for the longest single expansion behind what is stored
+  IN IF e.fault = "w" THEN "write_fault" ELSE IF e.fault # "none" THEN "fault_" \o e.fault
+     ELSE IF ~e.frame_ok THEN "write_outside_dest"
+     ELSE IF \E i \in 1..Len(e.s) : ~Scalar(e.s[i]) THEN ""
+     ELSE IF e.op = "c" /\ e.s # NFD(e.s) THEN ""
+     ELSE IF e.rc = 0 THEN
+          (IF e.dmax <= Len(ref) THEN "no_room_accepted"
+           ELSE IF ~Prefix(e.post, ref) THEN "wrong_stage_result"
+           ELSE IF e.post[Len(ref) + 1] # 0 THEN "unterminated"
+           ELSE IF e.op # "r" /\ e.len # Len(ref) THEN "wrong_length"
+           ELSE IF e.hn # 0 THEN "handler_on_success"
+           ELSE IF e.op # "r" /\ e.slack = 1 /\ ~AllZero(e.post, Len(ref) + 1) THEN "stale_slack" ELSE "")
+     ELSE (IF e.dmax >= room /\ (e.op # "d" \/ e.dmax >= 5) THEN "spurious_failure"
+           ELSE IF e.hn # 1 THEN "report"
+           ELSE IF e.dmax >= 1 /\ e.post[1] # 0 THEN "dest_not_cleared" ELSE "")
+Why(e) == IF e.op = "n" THEN WhyNorm(e) ELSE IF e.op = "w" THEN WhyFoldStr(e) ELSE IF e.op \in {"d", "r", "c"} THEN WhyStage(e) ELSE WhyFold(e)
 TInit == l = 1 /\ bad = <<>>
 TNext == /\ l <= Len(T) /\ l' = l + 1
          /\ LET w == Why(T[l]) IN bad' = IF w = "" THEN bad ELSE Append(bad, [i |-> T[l].id, why |-> w, dev |-> DevNorm(T[l])])
